@@ -137,6 +137,21 @@ NA = {
 }
 PENDING = "not registered, nothing claimed: the checker designed in DESIGN.md section 5 is unfinished (rules still produce untriaged reports on the unchanged tree, see DESIGN.md section 10), and an unfinished check must not raise alarms; the technique does apply to the structural clauses named there"
 
+# clauses added after the fifth held-out round (DESIGN 16); appended to the claim text of the checks that gained them
+ROUND5 = {
+    "C01": " Round 5: bash's string-constant encoder reads back as the literal for all strings (ENC, shared with C07) and the top-level match site keeps the first tab field of a command's output (SK-CMD V4, shared with C17); the reply block offers every match of the winning level (SK-FB F4).",
+    "C02": " Round 5: a rebuilding arm keeps the operator over the matched node's children (RP KIND) and a pass fills an Option field only where the node has none (RP FILL).",
+    "C04": " Round 5: per-level table vectors keep one slot per `||` level (PERLEVEL).",
+    "C09": " Round 5: the literal scan of the word walk ends only by taking a transition (SK-WALK W5), operand i of a `||` is level i whatever encloses it (FF index), per-level tables keep one slot per level (PERLEVEL).",
+    "C10": " Round 5: no result order taken from thread scheduling (channels, scoped threads, pools: AMBIENT), and a hand-written `eq` on an enum with a derived Hash compares every field (HASHEQ clause C).",
+    "C11": " Round 5: the dependency collector descends into every operator (TC on do_get_nonterm_refs).",
+    "C12": " Round 5: nothing between the matcher and COMPREPLY drops look-alike candidates (SK-FB F4 reply clause).",
+    "C14": " Round 5: str/char whitespace tests (trim_start, is_whitespace ..) are used in the parser only inside the blank/comment skippers (BLANKS).",
+    "C16": " Round 5: a string parameter of a public dump function never reaches the file bare (SINK), and nodes are declared before an edge mentions them where shapes are set by `node [..]` statements (DECLFIRST).",
+}
+for _k, _v in ROUND5.items():
+    CLAIMED[_k]["text"] = CLAIMED[_k]["text"] + _v
+
 checks = []
 na = []
 for p in props:
